@@ -19,6 +19,13 @@ func main() {
 		cmdVerify(os.Args[2:])
 	case "check":
 		os.Exit(cmdCheck(os.Args[2:]))
+	case "ssa":
+		p := setup("/repo", "quick")
+		for _, n := range os.Args[2:] {
+			if f := p.funcs[n]; f != nil {
+				f.WriteTo(os.Stdout)
+			}
+		}
 	case "replay":
 		os.Exit(cmdReplay(os.Args[2:]))
 	default:
